@@ -133,6 +133,7 @@ func main() {
 	genRouter()
 	genListen()
 	genSvcStart()
+	genHooks()
 	genBounds()
 	genMsgBounds()
 	if forProp == "" || forProp == "C15" {
